@@ -558,3 +558,55 @@ U_STR_ATOMS = [Unit("_str_atoms[one atom, count %s]" % ("!= 1" if wc else "== 1"
                     contracts={FORMULAS + "._str_count": c_str_count},
                     inline={CORE + ".isatom", CORE + ".isisotope", CORE + ".ision"},
                     replay={"module": "c13", "task": "replay"}) for wc in (False, True)]
+
+
+# ==============================================================================  parse_formula: one grammar per table
+
+def c_formula_grammar(interp, st, args, kw):
+    return VObj("Grammar", {"table": args[0]})
+
+
+def c_parse_string(interp, st, args, kw):
+    g = args[0]
+    return VList([VObj("Parsed", {"grammar": g, "text": args[1]})])
+
+
+def _pf_inputs(which):
+    def mk(st, interp):
+        use_state(st)
+        pub = VObj("Table", {"name": "public"})
+        priv = VObj("Table", {"name": "private"})
+        other = VObj("Table", {"name": "other"})
+        interp.env_overrides[(CORE, "PUBLIC_TABLE")] = pub
+        # the cache already holds the grammar of another table
+        pre = VObj("Grammar", {"table": other})
+        st.ghost.setdefault("module_state", {})[(FORMULAS, "_PARSER_CACHE")] = VDict([[other, pre]])
+        s = st.fresh("text", z3.StringSort())
+        table = {"public": None, "private": priv, "cached": other}[which]
+        return [s], {"table": table}, {"want": {"public": pub, "private": priv, "cached": other}[which], "s": s, "pre": pre, "which": which}
+    return mk
+
+
+def _pf_post(st, interp, C, res):
+    if res.outcome == "raise":
+        st.oblige("never-raises", False, kind="raises", info={"exc": res.exc})
+        return
+    r = res.value
+    ok = isinstance(r, VObj) and r.cls == "Parsed"
+    st.oblige("post.returns the first result of parseString", z3.BoolVal(ok))
+    if not ok:
+        return
+    st.oblige("post.the string is parsed with the grammar built for the requested table (default: the public table)",
+              z3.BoolVal(r.attrs["grammar"].attrs["table"] is C["want"]))
+    st.oblige("post.the whole string is parsed", z3.BoolVal(r.attrs["text"] is C["s"]))
+    if C["which"] == "cached":
+        st.oblige("post.a cached grammar is reused", z3.BoolVal(r.attrs["grammar"] is C["pre"]))
+    cache = st.ghost["module_state"][(FORMULAS, "_PARSER_CACHE")]
+    st.oblige("inv.the cache maps each table to a grammar built for that table",
+              z3.BoolVal(all(g.attrs["table"] is t for t, g in cache.entries)))
+
+
+U_PARSE_FORMULA = [Unit("parse_formula[%s table]" % w, FORMULAS + ".parse_formula", _pf_inputs(w), _pf_post,
+                        contracts={FORMULAS + ".formula_grammar": c_formula_grammar, "Grammar.parseString": c_parse_string},
+                        inline={CORE + ".default_table"}, replay={"module": "c01", "task": "replay"})
+                   for w in ("public", "private", "cached")]
